@@ -275,6 +275,19 @@ func (w *world) apply(op Op, will bool) (*outcome, string) {
 		if op.Kind != "clear" {
 			m.Payload = []byte("m")
 		}
+		// application properties travel with the message: the variants cycle with the publication number
+		switch w.npub % 4 {
+		case 1:
+			m.ContentType = "text/plain"
+			m.UserProperties = []packets.UserProperty{{K: []byte("unit"), V: []byte("celsius")}}
+		case 2:
+			m.ResponseTopic, m.CorrelationData, m.PayloadFormat, m.MessageExpiry = "reply/to", []byte{0, 1, 2}, 1, 3600
+			m.UserProperties = []packets.UserProperty{{K: []byte("a"), V: []byte("1")}, {K: []byte("a"), V: []byte("2")}, {K: []byte("b"), V: []byte("")}}
+		case 3:
+			m.QoS = 2
+			m.UserProperties = []packets.UserProperty{{K: []byte(""), V: []byte("")}}
+		}
+		origin := content(m)
 		// what the core does before the hook (server/client.go publishHandler)
 		if m.Retained {
 			if len(m.Payload) == 0 {
@@ -339,6 +352,8 @@ func (w *world) apply(op Op, will bool) (*outcome, string) {
 					o.notes = append(o.notes, fmt.Sprintf("%s published %d messages for one message event", pn, len(rcv.pub.msgs)-before))
 				} else if pm := rcv.pub.msgs[before]; pm.Topic != op.T || string(pm.Payload) != string(m.Payload) || pm.Retained != m.Retained {
 					o.notes = append(o.notes, fmt.Sprintf("%s published a different message: %+v", pn, pm))
+				} else if got := content(pm); got != origin {
+					o.notes = append(o.notes, fmt.Sprintf("%s published the message with different content: %s, published at %s as %s", pn, got, nd.name, origin))
 				}
 			}
 			p.Ack(evs[len(evs)-1].Id)
@@ -354,6 +369,16 @@ func (w *world) apply(op Op, will bool) (*outcome, string) {
 		return o, ""
 	}
 	return nil, "unknown op " + op.Op
+}
+
+// content renders every application-visible field of a message (what a subscriber of the receiving node gets)
+func content(m *gmqtt.Message) string {
+	var ups []string
+	for _, u := range m.UserProperties {
+		ups = append(ups, fmt.Sprintf("%q=%q", u.K, u.V))
+	}
+	return fmt.Sprintf("topic=%s payload=%q qos=%d retained=%v contenttype=%q response=%q correlation=%x format=%d expiry=%d userprops=%v",
+		m.Topic, m.Payload, m.QoS, m.Retained, m.ContentType, m.ResponseTopic, m.CorrelationData, m.PayloadFormat, m.MessageExpiry, ups)
 }
 
 func sorted(s []string) []string {
